@@ -626,9 +626,40 @@ Proof.
   - cbn in Hc. apply andb_prop in Hc as [H1 H2]. destruct i; cbn; auto.
 Qed.
 
+(* no list element that is a mapping is replaced (Match / Replace at a cost): the shape of finding D23, where
+   the edit is printed twice (RenderModel.from_to_twice) *)
+Fixpoint clean (inl : bool) (a : tree) (e : edit) {struct e} : bool :=
+  match e with
+  | EMatch c | EReplace c => negb ((0 <? c) && (inl && is_mapping a))
+  | EStr _ _ => true
+  | EComp k _ subs =>
+      if is_seq_kind k then
+        (fix all (ss : list sub) : bool :=
+           match ss with
+           | [] => true
+           | SPair i _ e' :: r => clean (is_lst a) (child a i) e' && all r
+           | _ :: r => all r
+           end) subs
+      else
+        match subs with
+        | [SPair _ _ ke; SPair _ _ ve] => clean false (child a 0) ke && clean false (child a 1) ve
+        | _ => true
+        end
+  end.
+
+Lemma spells_from_to_in : forall side inl c lay n a b, tok_ok a = true -> tok_ok b = true ->
+  clean inl a (EReplace c) = true ->
+  spells side (if 0 <? c then from_to_in inl lay n a b else mk Plain (tprint lay n b))
+              (ttoks (if 0 <? c then (if side then b else a) else b)).
+Proof.
+  intros side inl c lay n a b Ha Hb Hc. cbn [clean] in Hc. destruct (0 <? c); [|apply spells_plain; exact Hb].
+  unfold from_to_in. cbn [andb] in Hc. destruct (inl && is_mapping a); [discriminate|].
+  apply spells_from_to; assumption.
+Qed.
+
 Definition Pspells (side : bool) (e : edit) : Prop :=
-  forall lay n a b, tok_ok a = true -> tok_ok b = true -> edit_ok e = true ->
-    spells side (redit lay n a b e) (ttoks (proj side a b e)).
+  forall lay n inl a b, tok_ok a = true -> tok_ok b = true -> edit_ok e = true -> clean inl a e = true ->
+    spells side (redit lay n inl a b e) (ttoks (proj side a b e)).
 
 Lemma spells_erased : forall side s, item_spec side (if side then IRem else IIns, mk (em side) s) [].
 Proof.
@@ -639,6 +670,12 @@ Lemma items_spec : forall side lay n k a b subs,
   tok_ok a = true -> tok_ok b = true ->
   Forall (fun s => match s with SPair _ _ e => Pspells side e | _ => True end) subs ->
   edit_ok (EComp k 0 subs) = true ->
+  (fix all (ss : list sub) : bool :=
+     match ss with
+     | [] => true
+     | SPair i _ e' :: r => clean (is_lst a) (child a i) e' && all r
+     | _ :: r => all r
+     end) subs = true ->
   exists tss,
     Forall2 (item_spec side)
       ((fix items (ss : list sub) : list (ikind * stream) :=
@@ -649,7 +686,7 @@ Lemma items_spec : forall side lay n k a b subs,
                match k, e' with
                | KMultiSet, EMatch c => if 0 <? c then from_to lay (S n) (child a i) (child b j)
                                         else mk Plain (tprint lay (S n) (child a i))
-               | _, _ => redit lay (S n) (child a i) (child b j) e'
+               | _, _ => redit lay (S n) (is_lst a) (child a i) (child b j) e'
                end) :: items r
           | SRem i _ :: r => (IRem, mk Removed (tprint lay (S n) (child a i))) :: items r
           | SIns j _ :: r => (IIns, mk Inserted (tprint lay (S n) (child b j))) :: items r
@@ -668,13 +705,14 @@ Lemma items_spec : forall side lay n k a b subs,
           | SIns j _ :: r => if side then child b j :: items r else items r
           end) subs).
 Proof.
-  intros side lay n k a b subs Ha Hb HF Hok.
+  intros side lay n k a b subs Ha Hb HF Hok Hcl.
   induction HF as [|s subs Hs HF IH].
   - exists []. split; [constructor|reflexivity].
   - destruct s as [i j e'|i c|j c].
-    + cbn [edit_ok] in Hok. apply andb_prop in Hok as [Hoke Hok]. destruct (IH Hok) as [tss [H1 H2]].
+    + cbn [edit_ok] in Hok. apply andb_prop in Hok as [Hoke Hok]. apply andb_prop in Hcl as [Hcle Hcl].
+      destruct (IH Hok Hcl) as [tss [H1 H2]].
       pose proof (tok_ok_child a i Ha) as Hai. pose proof (tok_ok_child b j Hb) as Hbj.
-      assert (Hgen : spells side (redit lay (S n) (child a i) (child b j) e') (ttoks (proj side (child a i) (child b j) e'))).
+      assert (Hgen : spells side (redit lay (S n) (is_lst a) (child a i) (child b j) e') (ttoks (proj side (child a i) (child b j) e'))).
       { apply Hs; assumption. }
       assert (Hms : forall c, spells side (if 0 <? c then from_to lay (S n) (child a i) (child b j)
                                             else mk Plain (tprint lay (S n) (child a i)))
@@ -687,14 +725,14 @@ Proof.
       * constructor; [|exact H1]. unfold item_spec; cbn [fst snd survives].
         destruct k; try exact Hgen. destruct e'; try exact Hgen. apply Hms.
       * cbn [concat flat_map]. rewrite H2. destruct k; try reflexivity; destruct e'; reflexivity.
-    + destruct (IH Hok) as [tss [H1 H2]]. pose proof (tok_ok_child a i Ha) as Hai.
+    + destruct (IH Hok Hcl) as [tss [H1 H2]]. pose proof (tok_ok_child a i Ha) as Hai.
       destruct side.
       * exists ([] :: tss). split; [constructor; [apply (spells_erased true)|exact H1]|]. cbn [concat app]. exact H2.
       * exists (ttoks (child a i) :: tss). split.
         -- constructor; [|exact H1]. unfold item_spec; cbn [fst snd survives negb]. unfold spells; cbn [em].
            rewrite erase_mk; cbn. apply lex_tprint. exact Hai.
         -- cbn [concat flat_map]. rewrite H2. reflexivity.
-    + destruct (IH Hok) as [tss [H1 H2]]. pose proof (tok_ok_child b j Hb) as Hbj.
+    + destruct (IH Hok Hcl) as [tss [H1 H2]]. pose proof (tok_ok_child b j Hb) as Hbj.
       destruct side.
       * exists (ttoks (child b j) :: tss). split.
         -- constructor; [|exact H1]. unfold item_spec; cbn [fst snd survives negb]. unfold spells; cbn [em].
@@ -714,13 +752,13 @@ Qed.
 Theorem redit_spells : forall side e, Pspells side e.
 Proof.
   intro side. apply edit_ind2; unfold Pspells.
-  - intros c lay n a b Ha Hb _. cbn [redit proj]. destruct (0 <? c); [apply spells_from_to|apply spells_plain]; assumption.
-  - intros c lay n a b Ha Hb _. cbn [redit proj]. destruct (0 <? c); [apply spells_from_to|apply spells_plain]; assumption.
-  - intros c ops lay n a b Ha Hb Hok. cbn [redit proj]. unfold spells. rewrite erase_rstredit.
+  - intros c lay n inl a b Ha Hb _ Hcl. cbn [redit proj]. apply spells_from_to_in; assumption.
+  - intros c lay n inl a b Ha Hb _ Hcl. cbn [redit proj]. apply spells_from_to_in; assumption.
+  - intros c ops lay n inl a b Ha Hb Hok _. cbn [redit proj]. unfold spells. rewrite erase_rstredit.
     intros r Hr. apply lex_jstring. apply nonneg_ops. exact Hok.
-  - intros k c subs IH lay n a b Ha Hb Hok. cbn [redit proj].
+  - intros k c subs IH lay n inl a b Ha Hb Hok Hcl. cbn [redit proj]. cbn [clean] in Hcl.
     destruct (is_seq_kind k) eqn:Ek.
-    + destruct (items_spec side lay n k a b subs Ha Hb IH Hok) as [tss [H1 H2]].
+    + destruct (items_spec side lay n k a b subs Ha Hb IH Hok Hcl) as [tss [H1 H2]].
       destruct a as [l|x y cs|x ka va|x cs|cs]; cbn [brackets fst snd rebuild].
       * apply spells_plain. exact Ha.
       * cbn [ttoks]. rewrite <- H2. apply spells_rseq; [reflexivity|reflexivity|exact H1].
@@ -730,6 +768,7 @@ Proof.
     + destruct subs as [|[i j ke|i x|j x] [|[i' j' ve|i' x'|j' x'] [|s3 rest]]]; try (apply spells_plain; exact Ha).
       inversion IH as [|? ? Hke IH']; subst. inversion IH' as [|? ? Hve _]; subst.
       cbn [edit_ok] in Hok. apply andb_prop in Hok as [Hoke Hok]. apply andb_prop in Hok as [Hove _].
+      apply andb_prop in Hcl as [Hclk Hclv].
       pose proof (tok_ok_child a 0 Ha) as Ha0. pose proof (tok_ok_child a 1 Ha) as Ha1.
       pose proof (tok_ok_child b 0 Hb) as Hb0. pose proof (tok_ok_child b 1 Hb) as Hb1.
       cbn [ttoks]. apply spells_kvp.
@@ -745,9 +784,10 @@ Proof. reflexivity. Qed.
 
 (* the rendering of a whole diff *)
 Theorem jrender_spells : forall side lay a b e, tok_ok a = true -> tok_ok b = true -> edit_ok e = true ->
+  clean false a e = true ->
   toks (erase (em side) (jrender lay a b e)) = ttoks (nproj side a b e).
 Proof.
-  intros side lay a b e Ha Hb He. unfold jrender, rnode, nproj.
+  intros side lay a b e Ha Hb He Hcl. unfold jrender, rnode, nproj.
   assert (G : forall s t, spells side s (ttoks t) -> toks (erase (em side) s) = ttoks t).
   { intros s t H. pose proof (H [] eq_refl) as E. rewrite !app_nil_r in E. exact E. }
   apply G.
@@ -912,16 +952,22 @@ Proof.
 Qed.
 
 Definition Pmarks (e : edit) : Prop :=
-  forall lay n a b, tok_ok a = true -> tok_ok b = true -> (marks (redit lay n a b e) = [] <-> qe a e = true).
+  forall lay n inl a b, tok_ok a = true -> tok_ok b = true -> (marks (redit lay n inl a b e) = [] <-> qe a e = true).
 
 Lemma marks_plain_iff : forall lay n t (P : Prop), P -> (marks (mk Plain (tprint lay n t)) = [] <-> P).
 Proof. intros. rewrite marks_mk_plain. tauto. Qed.
 
-Lemma marks_mf : forall c lay n a b,
-  marks (if 0 <? c then from_to lay n a b else mk Plain (tprint lay n b)) = [] <-> negb (0 <? c) = true.
+Lemma from_to_in_marked : forall inl lay n a b, marks (from_to_in inl lay n a b) <> [].
+Proof.
+  intros. unfold from_to_in. destruct (inl && is_mapping a); [|apply from_to_marked].
+  unfold from_to_twice. intro H. apply marks_nil_app in H as [_ H]. apply marks_nil_app in H as [H _]. discriminate.
+Qed.
+
+Lemma marks_mf : forall c inl lay n a b,
+  marks (if 0 <? c then from_to_in inl lay n a b else mk Plain (tprint lay n b)) = [] <-> negb (0 <? c) = true.
 Proof.
   intros. destruct (0 <? c); cbn [negb].
-  - split; [intro H; exfalso; exact (from_to_marked _ _ _ _ H)|discriminate].
+  - split; [intro H; exfalso; exact (from_to_in_marked _ _ _ _ _ H)|discriminate].
   - rewrite marks_mk_plain. tauto.
 Qed.
 
@@ -937,7 +983,7 @@ Lemma marks_items : forall lay n k a b subs,
                match k, e' with
                | KMultiSet, EMatch c => if 0 <? c then from_to lay (S n) (child a i) (child b j)
                                         else mk Plain (tprint lay (S n) (child a i))
-               | _, _ => redit lay (S n) (child a i) (child b j) e'
+               | _, _ => redit lay (S n) (is_lst a) (child a i) (child b j) e'
                end) :: items r
           | SRem i _ :: r => (IRem, mk Removed (tprint lay (S n) (child a i))) :: items r
           | SIns j _ :: r => (IIns, mk Inserted (tprint lay (S n) (child b j))) :: items r
@@ -960,9 +1006,9 @@ Proof.
       assert (E : marks (match k, e' with
                          | KMultiSet, EMatch c => if 0 <? c then from_to lay (S n) (child a i) (child b j)
                                                   else mk Plain (tprint lay (S n) (child a i))
-                         | _, _ => redit lay (S n) (child a i) (child b j) e'
+                         | _, _ => redit lay (S n) (is_lst a) (child a i) (child b j) e'
                          end) = [] <-> qe (child a i) e' = true).
-      { pose proof (Hs lay (S n) (child a i) (child b j) Hai Hbj) as G.
+      { pose proof (Hs lay (S n) (is_lst a) (child a i) (child b j) Hai Hbj) as G.
         destruct k; try exact G. destruct e'; try exact G. cbn [qe].
         destruct (0 <? c); cbn [negb].
         - split; [intro H; exfalso; exact (from_to_marked _ _ _ _ H)|discriminate].
@@ -984,10 +1030,10 @@ Qed.
 Theorem marks_redit : forall e, Pmarks e.
 Proof.
   apply edit_ind2; unfold Pmarks.
-  - intros c lay n a b _ _. cbn [redit qe]. apply marks_mf.
-  - intros c lay n a b _ _. cbn [redit qe]. apply marks_mf.
-  - intros c ops lay n a b _ _. cbn [redit qe]. apply marks_rstredit.
-  - intros k c subs IH lay n a b Ha Hb. cbn [redit qe].
+  - intros c lay n inl a b _ _. cbn [redit qe]. apply marks_mf.
+  - intros c lay n inl a b _ _. cbn [redit qe]. apply marks_mf.
+  - intros c ops lay n inl a b _ _. cbn [redit qe]. apply marks_rstredit.
+  - intros k c subs IH lay n inl a b Ha Hb. cbn [redit qe].
     destruct (is_seq_kind k) eqn:Ek.
     + destruct (marks_items lay n k a b subs Ha Hb IH) as [H1 H2].
       destruct a as [l|x y cs|x ka va|x cs|cs]; cbn [brackets fst snd];
@@ -1000,11 +1046,11 @@ Proof.
       rewrite !marks_nil_app, marks_mk_plain, andb_true_iff.
       assert (G : forall x y e', Pmarks e' -> tok_ok x = true -> tok_ok y = true ->
                  (marks (match e' with
-                         | EComp _ _ _ => redit lay n x y e'
-                         | _ => if 0 <? cost e' then redit lay n x y e' else mk Plain (tprint lay n x)
+                         | EComp _ _ _ => redit lay n false x y e'
+                         | _ => if 0 <? cost e' then redit lay n false x y e' else mk Plain (tprint lay n x)
                          end) = [] <->
                   match e' with EComp _ _ _ => qe x e' | _ => negb (0 <? cost e') || qe x e' end = true)).
-      { intros x y e' He' Hx Hy. pose proof (He' lay n x y Hx Hy) as G.
+      { intros x y e' He' Hx Hy. pose proof (He' lay n false x y Hx Hy) as G.
         destruct e'; try exact G; destruct (0 <? cost _); cbn [negb orb]; try exact G; rewrite marks_mk_plain; tauto. }
       rewrite (G _ _ ke Hke Ha0 Hb0), (G _ _ ve Hve Ha1 Hb1). tauto.
 Qed.
@@ -1013,7 +1059,7 @@ Theorem marks_jrender : forall lay a b e, tok_ok a = true -> tok_ok b = true ->
   (marks (jrender lay a b e) = [] <-> qn a e = true).
 Proof.
   intros lay a b e Ha Hb. unfold jrender, rnode, qn.
-  pose proof (marks_redit e lay 0%nat a b Ha Hb) as G.
+  pose proof (marks_redit e lay 0%nat false a b Ha Hb) as G.
   destruct e; try exact G; destruct (0 <? cost _); cbn [negb orb]; try exact G; rewrite marks_mk_plain; tauto.
 Qed.
 
@@ -1348,15 +1394,19 @@ Proof. intros side a b e Hv Hf Ho Hk. unfold nproj. apply proj_node_doc; auto. a
 
 (* ------------------------------------------------------------------ the statements of C06 *)
 
+Definition lf (k : lkind) (s : list Z) (n : Z) : tree := Leaf {| lk := k; ltext := s; lnum := n; lexp := 0 |}.
+
 (* (1),(2) for ALL trees, scripts and layouts: what is left after deleting the inserted (removed) characters is,
    token for token, the plain print of the document  nproj false (true) a b e  read off the script: a's (b's)
    children where they are matched at a cost or removed (inserted), in script order.  "~" forgets only commas
    and whitespace outside string literals (RenderSpec.toks); toks_tprint relates ttoks to tprint. *)
 Theorem C06_first_all : forall lay a b e, tok_ok a = true -> tok_ok b = true -> edit_ok e = true ->
+  clean false a e = true ->
   toks (erase Inserted (jrender lay a b e)) = ttoks (nproj false a b e).
 Proof. intros. apply (jrender_spells false); assumption. Qed.
 
 Theorem C06_second_all : forall lay a b e, tok_ok a = true -> tok_ok b = true -> edit_ok e = true ->
+  clean false a e = true ->
   toks (erase Removed (jrender lay a b e)) = ttoks (nproj true a b e).
 Proof. intros. apply (jrender_spells true); assumption. Qed.
 
@@ -1374,19 +1424,32 @@ Qed.
 
 (* ordered containers (lists, leaves, strings, key/value pairs): both projections are "~" the documents *)
 Theorem C06_ordered_partial_all : forall lay a b e,
-  tok_ok a = true -> tok_ok b = true -> edit_ok e = true ->
+  tok_ok a = true -> tok_ok b = true -> edit_ok e = true -> clean false a e = true ->
   valid a b e = true -> Faithful a b e -> ordered_only e = true -> kvp2 e = true ->
   sim (erase Inserted (jrender lay a b e)) (tprint lay 0 a) /\
   sim (erase Removed (jrender lay a b e)) (tprint lay 0 b).
 Proof.
-  intros lay a b e Ha Hb He Hv Hf Ho Hk. unfold sim. split.
-  - rewrite (C06_first_all lay a b e Ha Hb He), (nproj_doc false a b e Hv Hf Ho Hk), toks_tprint by exact Ha. reflexivity.
-  - rewrite (C06_second_all lay a b e Ha Hb He), (nproj_doc true a b e Hv Hf Ho Hk), toks_tprint by exact Hb. reflexivity.
+  intros lay a b e Ha Hb He Hc Hv Hf Ho Hk. unfold sim. split.
+  - rewrite (C06_first_all lay a b e Ha Hb He Hc), (nproj_doc false a b e Hv Hf Ho Hk), toks_tprint by exact Ha. reflexivity.
+  - rewrite (C06_second_all lay a b e Ha Hb He Hc), (nproj_doc true a b e Hv Hf Ho Hk), toks_tprint by exact Hb. reflexivity.
+Qed.
+
+(* finding D23: a mapping replaced as an element of a list is printed  from -> to -> to ; neither projection is
+   the print of any document the script could spell *)
+Theorem C06_mapping_replaced_refuted :
+  exists lay a b e, tok_ok a = true /\ tok_ok b = true /\ edit_ok e = true /\ valid a b e = true /\
+                    Faithful a b e /\ ordered_only e = true /\ kvp2 e = true /\ additive e = true /\
+                    ~ sim (erase Inserted (jrender lay a b e)) (tprint lay 0 a) /\
+                    ~ sim (erase Removed (jrender lay a b e)) (tprint lay 0 b) /\
+                    jparse_lenient (erase Inserted (jrender lay a b e)) = None.
+Proof.
+  exists (true, true), (Lst true true [MSet true []]), (Lst true true [lf KInt [53] 5]),
+         (EComp KFixedLen 2 [SPair 0 0 (EReplace 2)]).
+  repeat split; try reflexivity; try (left; reflexivity); try (unfold sim; vm_compute; discriminate).
 Qed.
 
 (* the hypotheses are necessary: finding D4 (a zero-cost match of 1 and 1.0 is printed once) breaks Faithful,
    finding D16 (removing "" from a list of leaves costs 0) breaks pos_costs *)
-Definition lf (k : lkind) (s : list Z) (n : Z) : tree := Leaf {| lk := k; ltext := s; lnum := n; lexp := 0 |}.
 
 Theorem C06_zero_cost_match_refuted :
   exists lay a b e, tok_ok a = true /\ tok_ok b = true /\ edit_ok e = true /\ valid a b e = true /\
@@ -1416,7 +1479,8 @@ Definition ex_e : edit :=
 Example C06_hypotheses_inhabited :
   tok_ok ex_a = true /\ tok_ok ex_b = true /\ edit_ok ex_e = true /\ valid ex_a ex_b ex_e = true /\
   Faithful ex_a ex_b ex_e /\ ordered_only ex_e = true /\ kvp2 ex_e = true /\ additive ex_e = true /\
-  pos_costs ex_e = true /\ cost ex_e <> 0 /\ marks (jrender (false, false) ex_a ex_b ex_e) <> [].
+  pos_costs ex_e = true /\ clean false ex_a ex_e = true /\
+  cost ex_e <> 0 /\ marks (jrender (false, false) ex_a ex_b ex_e) <> [].
 Proof.
   repeat split; try reflexivity; try (vm_compute; discriminate); try (right; reflexivity); cbn; lia.
 Qed.
@@ -1425,7 +1489,7 @@ Example C06_example : forall lay,
   sim (erase Inserted (jrender lay ex_a ex_b ex_e)) (tprint lay 0 ex_a) /\
   sim (erase Removed (jrender lay ex_a ex_b ex_e)) (tprint lay 0 ex_b).
 Proof.
-  intro lay. destruct C06_hypotheses_inhabited as [H1 [H2 [H3 [H4 [H5 [H6 [H7 _]]]]]]].
+  intro lay. destruct C06_hypotheses_inhabited as [H1 [H2 [H3 [H4 [H5 [H6 [H7 [_ [_ [H8 _]]]]]]]]]].
   apply C06_ordered_partial_all; assumption.
 Qed.
 
@@ -1578,32 +1642,33 @@ Qed.
 
 (* the lenient reader on a projection of the rendering: the document the script spells for that side ... *)
 Theorem C06_reads_all : forall side lay a b e, tok_ok a = true -> tok_ok b = true -> edit_ok e = true ->
+  clean false a e = true ->
   jshape (nproj side a b e) = true -> is_kvp (nproj side a b e) = false ->
   jwfb false (value_of (nproj side a b e)) = true ->
   jparse_lenient (erase (em side) (jrender lay a b e)) = Some (value_of (nproj side a b e)).
 Proof.
-  intros side lay a b e Ha Hb He Hs Hk Hw. apply reads_ttoks; auto. apply jrender_spells; assumption.
+  intros side lay a b e Ha Hb He Hc Hs Hk Hw. apply reads_ttoks; auto. apply jrender_spells; assumption.
 Qed.
 
 (* ... which, for valid scripts over ordered containers, is the document itself (corollary through C12) *)
 Theorem C06_reads_ordered_all : forall lay a b e,
-  tok_ok a = true -> tok_ok b = true -> edit_ok e = true ->
+  tok_ok a = true -> tok_ok b = true -> edit_ok e = true -> clean false a e = true ->
   valid a b e = true -> Faithful a b e -> ordered_only e = true -> kvp2 e = true ->
   (jshape a = true -> is_kvp a = false -> jwfb false (value_of a) = true ->
    jparse_lenient (erase Inserted (jrender lay a b e)) = Some (value_of a)) /\
   (jshape b = true -> is_kvp b = false -> jwfb false (value_of b) = true ->
    jparse_lenient (erase Removed (jrender lay a b e)) = Some (value_of b)).
 Proof.
-  intros lay a b e Ha Hb He Hv Hf Ho Hk. split; intros Hs Hkv Hw; apply reads_ttoks; auto.
-  - rewrite (C06_first_all lay a b e Ha Hb He). apply (nproj_doc false a b e Hv Hf Ho Hk).
-  - rewrite (C06_second_all lay a b e Ha Hb He). apply (nproj_doc true a b e Hv Hf Ho Hk).
+  intros lay a b e Ha Hb He Hc Hv Hf Ho Hk. split; intros Hs Hkv Hw; apply reads_ttoks; auto.
+  - rewrite (C06_first_all lay a b e Ha Hb He Hc). apply (nproj_doc false a b e Hv Hf Ho Hk).
+  - rewrite (C06_second_all lay a b e Ha Hb He Hc). apply (nproj_doc true a b e Hv Hf Ho Hk).
 Qed.
 
 Example C06_reads_example : forall lay,
   jparse_lenient (erase Inserted (jrender lay ex_a ex_b ex_e)) = Some (value_of ex_a) /\
   jparse_lenient (erase Removed (jrender lay ex_a ex_b ex_e)) = Some (value_of ex_b).
 Proof.
-  intro lay. destruct C06_hypotheses_inhabited as [H1 [H2 [H3 [H4 [H5 [H6 [H7 _]]]]]]].
-  destruct (C06_reads_ordered_all lay ex_a ex_b ex_e H1 H2 H3 H4 H5 H6 H7) as [Ga Gb].
+  intro lay. destruct C06_hypotheses_inhabited as [H1 [H2 [H3 [H4 [H5 [H6 [H7 [_ [_ [H8 _]]]]]]]]]].
+  destruct (C06_reads_ordered_all lay ex_a ex_b ex_e H1 H2 H3 H8 H4 H5 H6 H7) as [Ga Gb].
   split; [apply Ga|apply Gb]; reflexivity.
 Qed.
